@@ -528,17 +528,29 @@ class AppClock(Clock, metaclass=MetaAppClock):
 class ClockScheduler():
     def __init__(self):
         self.queue = tsq.TaskQueue()
+        self._pending = dict()
 
     def run(self):
         while not self.queue.empty():
             time, clock_task = self.queue.pop()
+            key = (id(clock_task.clock), id(clock_task.task))
+            if self._pending.get(key) is clock_task:
+                del self._pending[key]
             clock_task._wakeup(time)
 
     def add(self, time, clock_task):
+        # One pending wake-up per task and clock, as in the rt clocks'
+        # queues: scheduling a task again replaces its previous entry.
+        key = (id(clock_task.clock), id(clock_task.task))
+        previous = self._pending.get(key)
+        if previous is not None and previous is not clock_task:
+            self.queue.remove(previous)
+        self._pending[key] = clock_task
         self.queue.add(time, clock_task)
 
     def reset(self):
         self.queue.clear()
+        self._pending.clear()
 
     def retime(self, clock):
         # Tasks are due at a beat of their clock: when the clock's tempo
